@@ -361,6 +361,7 @@ pub fn run(ctx: &Ctx) -> &'static str {
     ctx.assume("'housekeeping period' is the largest spacing between consecutive ticks of the run (ticks are >= 1000 ms apart, jitter <= 500 ms plus the time other ops add); a link is 'live' when connected and heard within the configured timeout");
     ctx.assume("telemetry is compared with the link's fields snapshotted immediately before the tick; rate = (bits per second / 8) as u32");
     ctx.assume("'sample taken' = the RTT tracker's measurement stamp, Kalman state or previous-sample field changed");
+    ctx.assume("'a probe is outstanding' is taken from the RTT tracker's own waiting flag (the harness additionally requires that a keepalive left on the link since its last reset); which echoes use an outstanding probe up is therefore not judged");
     for (file, body) in ctx.replay_files() {
         let done = ctx.replay_case::<Case, _>("housekeeping", &file, &body, check) || ctx.replay_case::<Stream, _>("sample-streams", &file, &body, check_stream);
         if !done {
